@@ -904,8 +904,13 @@ func ruleResumeAtTheFirstRetainedEntry(c *eng.Ctx) {
 				exact++
 				continue
 			}
+			// an index COMPUTED from the first index (first + 1, first - 1); a comparison with it (`index < first` bound to a
+			// flag) is a test, not a place to resume at
 			if bo, isBo := es.(*ssa.BinOp); isBo && (firstIdx(eng.Strip(bo.X)) || firstIdx(eng.Strip(bo.Y))) {
-				uses++
+				switch bo.Op {
+				case token.ADD, token.SUB, token.MUL, token.QUO, token.REM, token.SHL, token.SHR, token.AND, token.OR, token.XOR:
+					uses++
+				}
 			}
 		}
 	})
